@@ -158,6 +158,39 @@ func fieldEvents(tr *hx.Trace, r *hx.Rng, thorough bool) {
 	// operand classes as the group-law code produces them:
 	//   R  reduced (Expand / Mul / Square / AddReduce / SubReduce / Neg outputs)
 	//   A1 = Add(R, R), S1 = Sub(R, R), AB = AddAfterBasic(A1, R), SB = SubAfterBasic(A1|R, R|A1|S1)
+	// the carried forms (AddReduce / SubReduce, bias 4p) and the after-basic forms on the LARGEST operands their contract
+	// admits: results of one Add / Sub of elements whose limbs are all at their mask, against small minuends
+	{
+		ones := bytes.Repeat([]byte{0xff}, 32)
+		maxR, zero, one := feFromBytes(ones), feFromBytes(make([]byte, 32)), feFromBytes(append([]byte{1}, make([]byte, 31)...))
+		var a1max, s1max, o fe
+		curve25519.Add(&a1max, &maxR, &maxR)
+		curve25519.Sub(&s1max, &maxR, &zero)
+		smalls := []*fe{&zero, &one, &maxR}
+		bigs := []*fe{&a1max, &s1max, &maxR}
+		for _, x := range smalls {
+			for _, y := range bigs {
+				curve25519.SubReduce(&o, x, y)
+				emit("SubReduce", x, y, &o, nil)
+				curve25519.SubAfterBasic(&o, x, y)
+				emit("SubAfterBasic", x, y, &o, nil)
+				curve25519.AddReduce(&o, x, y)
+				emit("AddReduce", x, y, &o, nil)
+				curve25519.AddAfterBasic(&o, x, y)
+				emit("AddAfterBasic", x, y, &o, nil)
+				curve25519.SubReduce(&o, y, x)
+				emit("SubReduce", y, x, &o, nil)
+			}
+		}
+		curve25519.SubReduce(&o, &a1max, &s1max)
+		emit("SubReduce", &a1max, &s1max, &o, nil)
+		curve25519.SubReduce(&o, &s1max, &a1max)
+		emit("SubReduce", &s1max, &a1max, &o, nil)
+		curve25519.Sub(&o, &zero, &maxR)
+		emit("Sub", &zero, &maxR, &o, nil)
+		curve25519.Neg(&o, &maxR)
+		emit("Neg", &maxR, nil, &o, nil)
+	}
 	rounds := 40
 	if thorough {
 		rounds = 600
@@ -188,6 +221,12 @@ func fieldEvents(tr *hx.Trace, r *hx.Rng, thorough bool) {
 		emit("AddReduce", &R1, &R2, &o, nil)
 		curve25519.SubReduce(&o, &R1, &R2)
 		emit("SubReduce", &R1, &R2, &o, nil)
+		curve25519.SubReduce(&o, &R3, &A1) // bias 4p: an Add / Sub result may be subtracted
+		emit("SubReduce", &R3, &A1, &o, nil)
+		curve25519.SubReduce(&o, &R4, &S1)
+		emit("SubReduce", &R4, &S1, &o, nil)
+		curve25519.AddReduce(&o, &A1, &S1)
+		emit("AddReduce", &A1, &S1, &o, nil)
 		curve25519.Neg(&o, &R1)
 		emit("Neg", &R1, nil, &o, nil)
 		ops := []*fe{&R1, &R2, &A1, &S1, &AB, &SB, &SB2, &SB3}
